@@ -56,16 +56,29 @@ def law_nodes(pairs, order):
     return pairs
 
 
-def get_law(kind, mat, max_load, bins):
-    """Binned law; cached per process (construction is a pure function of the key)."""
+def get_law(kind, mat, max_load, bins, built="ctor"):
+    """Binned law; cached per process (construction is a pure function of the key).
+    built: how its owner got to the parameters - all through the constructor, or K' / K_p through the public
+    setters afterwards ("set_K", "set_Kp"); "refill": the per-node maxima Series handed to Binned is the caller's
+    work array, which he refills for his next batch as soon as Binned() has returned."""
     if isinstance(max_load, (list, tuple)):
-        key = (kind, mat, tuple(max_load), bins)
+        key = (kind, mat, tuple(max_load), bins, built)
     else:
-        key = (kind, mat, float(max_load), bins)
+        key = (kind, mat, float(max_load), bins, built)
     law = _law_cache.get(key)
     if law is None:
         E, K, n, Kp = MATERIALS[mat]
-        base = LAWS[kind](E, K, n, Kp)
+        try:
+            if built == "set_K":
+                base = LAWS[kind](E, K * 2.25, n, Kp)
+                base.K = K
+            elif built == "set_Kp":
+                base = LAWS[kind](E, K, n, Kp * 1.5 if Kp is not None else None)
+                base.K_p = Kp
+            else:
+                base = LAWS[kind](E, K, n, Kp)
+        except Exception as e:     # noqa
+            raise RealCodeError("law()", e)
         if isinstance(max_load, (list, tuple)):
             ids, vals = zip(*max_load)
             ml = pd.Series(list(vals), index=pd.Index(list(ids), name="node_id"))
@@ -73,6 +86,8 @@ def get_law(kind, mat, max_load, bins):
             ml = float(max_load)
         try:
             law = Binned(base, ml, bins)
+            if built == "refill" and isinstance(ml, pd.Series):
+                ml[:] = ml.to_numpy()[::-1] * 3.0 + 1.0
         except Exception as e:     # noqa
             raise RealCodeError("Binned()", e)
         if len(_law_cache) > 300:
@@ -523,7 +538,8 @@ def generate_c05(rng, tier):
           "mat": rng.randrange(len(MATERIALS)), "bins": rng.choice([20, 50, 100, 200]),
           "mode": rng.choice(["K1", "K1", "K2", "K2", "K3"]),
           "peek": rng.choice(["none", "none", "between", "both", "plot"]),
-          "ckpt": rng.choice(["none", "none", "deepcopy", "pickle", "fork"])}
+          "ckpt": rng.choice(["none", "none", "deepcopy", "pickle", "fork"]),
+          "law_built": rng.choice(["ctor", "ctor", "ctor", "set_K", "set_Kp", "refill"])}
     edge = rng.random() < 0.4
     tr["max_factor"] = rng.choice([1.0, 1.0, 1.25, 2.0]) if edge else rng.choice([1.0137, 1.0731, 1.3391, 1.9173])
     if rng.random() < 0.22:
@@ -934,8 +950,12 @@ def exec_c05(trace, out, log):
     loads = np.array([x * step for x in lv], dtype=np.float64)
     ctx = {"levels": lv, "step": step, "law": kind, "mat": mat, "bins": bins, "max_factor": mf}
     if mode in ("K1", "K3"):
-        law = get_law(kind, mat, big * mf, bins)
+        built = trace.get("law_built") or "ctor"
+        law = get_law(kind, mat, big * mf, bins, built=built if built in ("set_K", "set_Kp") else "ctor")
+        if built in ("set_K", "set_Kp"):
+            out.count("history:law_parameters_through_setters")
         det, rec, first_rows = run_two_pass(loads, law, peek=trace.get("peek", "none"), ckpt=trace.get("ckpt", "none"))
+        law = get_law(kind, mat, big * mf, bins)         # the reference evaluates a law built through the constructor
         if trace.get("ckpt", "none") != "none":
             out.count("history:checkpoint_" + trace["ckpt"])
         rows = collective_rows(rec)
@@ -1016,7 +1036,11 @@ def exec_c05(trace, out, log):
         mx = max(r for _, r in nodes) * big * mf
         law_b = get_law(kind, mat, mx, bins)
     else:
-        law_b = get_law(kind, mat, law_nodes([(i, big * mf * r) for i, r in nodes], trace.get("law_order")), bins)
+        refill = trace.get("law_built") == "refill"
+        law_b = get_law(kind, mat, law_nodes([(i, big * mf * r) for i, r in nodes], trace.get("law_order")), bins,
+                        built="refill" if refill else "ctor")
+        if refill:
+            out.count("history:maxima_series_refilled_by_its_owner")
         if trace.get("law_order") in ("sorted", "reversed"):
             out.count("probe:law_node_order_" + trace["law_order"])
     detb, recb, _ = run_two_pass(batch, law_b)
@@ -1243,7 +1267,7 @@ def shrink(prop, trace):
             t = copy.deepcopy(trace)
             t["nodes"] = cand
             yield t
-    for key, simple in (("law", "EN"), ("mat", 0), ("step", 100.0), ("bins", 20), ("peek", "none"), ("container", "f64"), ("ckpt", "none"), ("label_offset", 0)):
+    for key, simple in (("law", "EN"), ("mat", 0), ("step", 100.0), ("bins", 20), ("peek", "none"), ("container", "f64"), ("ckpt", "none"), ("label_offset", 0), ("law_built", "ctor")):
         if trace.get(key) != simple:
             t = copy.deepcopy(trace)
             t[key] = simple
